@@ -37,6 +37,16 @@ type Run struct {
 	Params   map[string]any
 	Replay   bool
 	ended    bool
+	reseed   func(uint64)
+}
+
+// Reseed re-initialises crypto/rand and math/rand to the state they had at the
+// start of the run (plus salt), so that a scenario can execute a twin world
+// that makes the same random draws.
+func (r *Run) Reseed(salt uint64) {
+	if r.reseed != nil {
+		r.reseed(r.Seed + salt)
+	}
 }
 
 // Epoch is the instant at which every bubble's clock starts.
